@@ -123,6 +123,19 @@ def check_one_over_length(ctx, rule_fwd, rule_rate):
         ctx.check(len(ps) == 1 and match(ps[0].ret, Agg("WithRate::WithRate", Param(1))), rule_rate, "WithRate::new-stores-rate", short(ps[0].ret), f.at())
 
 
+def umad_pair(r):
+    """the per-gene [old, new] pair a main-pass closure yields: returned as the array itself (the pipeline flattens it
+    afterwards) or already flattened inside the closure ([old, new].into_iter().flatten())"""
+    if r is None:
+        return None
+    if r[0] == "agg" and r[1] == "array":
+        return r
+    b = {}
+    if match(r, Call("Iterator::flatten", Call("IntoIterator::into_iter", Bind("arr"), nargs=1), nargs=1), b) and b["arr"][0] == "agg" and b["arr"][1] == "array":
+        return b["arr"]
+    return None
+
+
 def umad_closure(ctx):
     f = ctx.fn(UM + M % "G")
     ps = return_paths(ctx.paths(f))
@@ -132,9 +145,36 @@ def umad_closure(ctx):
         b = {}
         if match(p.ret, Agg("Result::Ok", Call("Iterator::collect", Call("Iterator::flatten", Call("Iterator::flat_map", Call("IntoIterator::into_iter", Param(2), nargs=1), Bind("clo"), nargs=2), nargs=1), nargs=1)), b):
             main.append((p, b["clo"]))
+        elif match(p.ret, Agg("Result::Ok", Call("Iterator::collect", Call("Iterator::flat_map", Call("IntoIterator::into_iter", Param(2), nargs=1), Bind("clo"), nargs=2), nargs=1)), b) and \
+                b["clo"][0] == "agg" and b["clo"][1] == "closure" and all(umad_pair(q.ret) is not None for q in closure_paths(ctx, b["clo"]) if q.end == "return"):
+            # flat_map(|gene| [old, new].into_iter().flatten()): the same sequence of genes
+            main.append((p, b["clo"]))
         else:
             empty.append(p)
     return f, main, empty
+
+
+def umad_empty_branch_explicit(ctx, emp):
+    """the empty-parent branch spelled with an explicit if: [random_bool(rng, rate) true] -> collect(Some(new_gene)), [false] -> collect(None)"""
+    seen = {}
+    for p in emp:
+        size0 = [c for c in p.conds if match(c[0], BinOp("Eq", Call("Linear::size", Through(Param(2)), nargs=1), Const(0), commutative=True)) and c[1] != 0] or \
+            [c for c in p.conds if match(c[0], Call("Linear::size", Through(Param(2)), nargs=1)) and c[1] == 0]
+        some = [c for c in p.conds if c[0][0] == "discr" and self_field(c[0][1], "empty_addition_rate") and c[1] == 1]
+        draw = [c for c in p.conds if callee_is(c[0], "Rng::random_bool") and rng_passthrough(c[0][3][0], 3) and
+                match(c[0][3][1], Through(Field(Through(Field(Through(Param(1)), "empty_addition_rate")), 0, "Some")))]
+        rb_calls = [c for c in p.calls() if callee_is(c, "Rng::random_bool")]
+        if not (size0 and some and len(draw) == 1 and len(rb_calls) == 1):
+            return False
+        t = draw[0][1] != 0
+        if t:
+            ok = match(p.ret, Agg("Result::Ok", Call("Iterator::collect", Call("IntoIterator::into_iter", Agg("Option::Some", Call("Umad::new_gene", Through(Param(1)), lambda a: rng_passthrough(a, 3), nargs=2)), nargs=1), nargs=1)))
+        else:
+            ok = match(p.ret, Agg("Result::Ok", Call("Iterator::collect", Call("IntoIterator::into_iter", Agg("Option::None"), nargs=1), nargs=1))) and not [c for c in p.calls() if callee_is(c, "Umad::new_gene", "Distribution::sample")]
+        if not ok:
+            return False
+        seen[t] = True
+    return seen == {True: True, False: True}
 
 
 def check_umad_rates(ctx, rule):
@@ -172,8 +212,8 @@ def check_umad_rates(ctx, rule):
         else:
             good = good and len(ds) == 2
             del_new_true = None
-        r = q.ret
-        if not (r[0] == "agg" and r[1] == "array" and len(r[3]) == 2):
+        r = umad_pair(q.ret)
+        if not (r is not None and len(r[3]) == 2):
             good = False
             continue
         old, new = r[3]
@@ -191,6 +231,9 @@ def check_umad_rates(ctx, rule):
     # empty branch
     emp = [p for p in empty if not is_err_return(p)]
     goode = len(emp) == 1
+    if len(emp) == 2 and umad_empty_branch_explicit(ctx, emp):
+        ctx.ok(rule, "Umad/empty-parent-draws-random_bool(empty_addition_rate)", "if random_bool(rng, empty rate) { Some(new_gene) } else { None } collected", at)
+        goode = None
     if goode:
         p = emp[0]
         b = {}
@@ -202,7 +245,8 @@ def check_umad_rates(ctx, rule):
         size0 = [c for c in p.conds if match(c[0], BinOp("Eq", Call("Linear::size", Through(Param(2)), nargs=1), Const(0), commutative=True)) and c[1] != 0]
         some = [c for c in p.conds if c[0][0] == "discr" and self_field(c[0][1], "empty_addition_rate") and c[1] == 1]
         goode = goode and bool(size0) and bool(some)
-    ctx.check(goode, rule, "Umad/empty-parent-draws-random_bool(empty_addition_rate)", short(emp[0].ret, 6) if emp else "-", at,
+    if goode is not None:
+      ctx.check(goode, rule, "Umad/empty-parent-draws-random_bool(empty_addition_rate)", short(emp[0].ret, 6) if emp else "-", at,
               bad_detail="empty-genome branch must be: size == 0 && empty_addition_rate == Some(r) -> random_bool(r).then(new_gene).into_iter().collect(); extracted " + "; ".join("[%s] -> %s" % (cond_str(p)[:200], short(p.ret, 7)) for p in empty))
     # constructors
     from .ctors import check_ctor
